@@ -19,9 +19,14 @@ func createDynForEMADynamicSampler(c *config.EMADynamicSamplerConfig) *dynsample
 		maxKeys = 500
 	}
 
+	interval := time.Duration(c.AdjustmentInterval)
+	if interval < 0 { // would panic in dynsampler's ticker goroutine; 0 selects its default
+		interval = 0
+	}
+
 	dynsampler := &dynsampler.EMASampleRate{
 		GoalSampleRate:             c.GoalSampleRate,
-		AdjustmentIntervalDuration: time.Duration(c.AdjustmentInterval),
+		AdjustmentIntervalDuration: interval,
 		Weight:                     c.Weight,
 		AgeOutValue:                c.AgeOutValue,
 		BurstDetectionDelay:        c.BurstDetectionDelay,
